@@ -22,6 +22,13 @@ PROP = "C01"
 MODULES = ["C01"]
 GEN = ["Burst", "Elements", "Codes", "Bptc", "Trellis"]
 MATCHERS = {}
+# drift detector (auxiliary): besides the anchor files of the property, the payload codecs and the assembly code
+ANCHORS = [
+    "okdmr/dmrlib/etsi/layer2/pdu",
+    "okdmr/dmrlib/etsi/layer2/elements",
+    "okdmr/dmrlib/etsi/layer3/elements",
+    "okdmr/dmrlib/transmission/transmission_generator.py",
+]
 
 MODEL_ERRORS = {"ValueError", "AssertionError", "NotImplementedError", "KeyError", "IndexError"}
 
@@ -281,13 +288,18 @@ def run(ctx):
             # all colour codes x data syncs on one tuple
             vals = fix(var.random_vals(rng))
             first = True
-            for cc in range(16):
-                for s in data:
+            full = ctx.thorough() or ctx.boost > 1 or var is src.variants[0]
+            combos = [(cc, s) for cc in range(16) for s in data]
+            if not full:
+                # quick: the complete 16 x 4 grid on the first variant of every kind, a quarter of it on the others
+                combos = [c for i, c in enumerate(combos) if i % 4 == (len(var.name) + i // 4) % 4]
+            for cc, s in combos:
+                if True:
                     ctx.case((kname, var.name, json.dumps(vals, sort_keys=True), cc, s.name),
                              sample={"kind": kname, "variant": var.name, "fields": vals, "cc": cc, "sync": s.name} if first and kname in ("csbk", "rate34") else None)
                     first = False
                     check_data(ctx, kname, dt, src, var, vals, cc, s, pairs_build, pairs_parse, bts=("D", "V", "U") if cc % 5 == 0 else ("D",))
-            ctx.count(f"data:{kname}:{var.name}", 64)
+            ctx.count(f"data:{kname}:{var.name}", len(combos))
             # type-directed sweep
             i = 0
             for fname, spec in var.fields:
